@@ -56,7 +56,8 @@ def coq_N(n):
 
 
 def coq_nat(n):
-    return "%d%%nat" % int(n)
+    # large unary numerals make coqc slow to parse: written in binary and converted by the evaluation
+    return "%d%%nat" % int(n) if int(n) <= 200 else "(N.to_nat %d%%N)" % int(n)
 
 
 def coq_bool(b):
